@@ -448,6 +448,36 @@ example :
         (fun m => (s.npts, m.npts, m.abstvec)))) = some (31, 5, some [0, 7, 14, 21, 28]) := by
   decide +kernel
 
+/-! ### round 5: the integration loop places every owner at its own instants -/
+
+/-- **Placement in the integration plan.**  A module whose points `make_abstvec` puts at `l` is scheduled by the loop at
+    exactly `l`: one call per point of its timeline (`npts` calls), at that point's instant on the sim's elapsed-time axis —
+    not at the sim's points, whatever the two lengths are. -/
+theorem C07_plan_placement (v : Variant) (m sim : Timeline) (l : List Rat) (h : makeAbstvec v m sim = .ok l)
+    (h1 : m.tvec.length = m.npts) (h2 : m.yearvec.length = m.npts) (h3 : m.datevec.length = m.npts) :
+    loopPlacement { m with abstvec := some l } = l ∧ (loopPlacement { m with abstvec := some l }).length = m.npts := by
+  refine ⟨by simp [loopPlacement], ?_⟩
+  simpa [loopPlacement] using C07_abstvec v m sim l h h1 h2 h3
+
+/-- the sim's own functions are scheduled at the sim's `tvec` -/
+theorem C07_plan_placement_sim (v : Variant) (p : SimPars) (t : Timeline) (h : simTimeline v p = .ok t) :
+    loopPlacement t = t.tvec := by
+  unfold simTimeline at h
+  simp only [bind, Except.bind, pure, Except.pure, throw, throwThe, MonadExceptOf.throw] at h
+  repeat' split at h
+  all_goals first
+    | (cases h; done)
+    | (cases h; simp [loopPlacement])
+
+/-- non-vacuity, and *equal length is not equal placement*: the sim 2000–2010, dt = 1 (11 points at 0, 1, …, 10) with a module
+    `start=2005, stop=2010, dt=0.5`: also 11 points, scheduled at 5, 5.5, …, 10 -/
+example :
+    ((simTimeline .asis ⟨"year", some (.num (Num.ofInt 2000)), some (.num (Num.ofInt 2010)), none, Num.ofRat 1⟩).toOption.bind
+      (fun s => (moduleTimeline .asis s ⟨none, some (.num (Num.ofRat 2005)), some (.num (Num.ofRat 2010)), some (Num.ofRat (1/2))⟩).toOption.map
+        (fun m => (s.npts, m.npts, loopPlacement s, loopPlacement m))))
+      = some (11, 11, [0, 1, 2, 3, 4, 5, 6, 7, 8, 9, 10], [5, 11/2, 6, 13/2, 7, 15/2, 8, 17/2, 9, 19/2, 10]) := by
+  decide +kernel
+
 /-! ### round 2: int-typed dt, non-positive dt, numeric offsets, `Time.update`, `Time.now` -/
 
 /-- **A step that does not advance, `spec`: rejected.**  dt ≤ 0 on a day/week/month date timeline is a ValueError. -/
